@@ -121,6 +121,9 @@ def gen_cases(ctx):
         yield dict(part='response', doc=mk(jsonrpc=j, id=i, result=r, error=e))
     for c, m, d in itertools.product(MEMBER + [2 ** 70, -32601, -32000, -32000.0, -32000.5], MEMBER, MEMBER):
         yield dict(part='error', doc=mk(code=c, message=m, data=d))
+    # members nested deeply (below what json.loads itself accepts): deserialisation never walks into params / result / data
+    for depth in (100, 400, 600, 900, 1200, 1400):
+        yield dict(part='deep', depth=depth)
     for v in NONOBJ:
         for part in ('request', 'response', 'error', 'batchreq', 'batchresp'):
             if part.startswith('batch') and isinstance(v, list):
@@ -401,8 +404,29 @@ def run_history(case, rec):
             rec.violation('C06:history:constructor outcome', dict(case, ids=ids), expected='identity' if fail else 'ok', observed=got)
 
 
+def run_deep(case, rec):
+    import json as _json
+    for o, c in (('[', ']'), ('{"a":', '}')):
+        nest = _json.loads(o * case['depth'] + '1' + c * case['depth'])
+        docs = [('request', Request.from_json, {'jsonrpc': '2.0', 'method': 'm', 'params': [nest], 'id': 1}),
+                ('request', Request.from_json, {'jsonrpc': '2.0', 'method': 'm', 'params': {'k': nest}}),
+                ('response', Response.from_json, {'jsonrpc': '2.0', 'id': 1, 'result': nest}),
+                ('response', Response.from_json, {'jsonrpc': '2.0', 'id': 1, 'error': {'code': 1, 'message': 'm', 'data': nest}}),
+                ('error', JsonRpcError.from_json, {'code': 1, 'message': 'm', 'data': nest}),
+                ('batchreq', BatchRequest.from_json, [{'jsonrpc': '2.0', 'method': 'm', 'params': [nest], 'id': 1}, {'jsonrpc': '2.0', 'method': 'n'}]),
+                ('batchresp', BatchResponse.from_json, [{'jsonrpc': '2.0', 'id': 1, 'result': nest}])]
+        for what, fn, doc in docs:
+            out = outcome(fn, doc)
+            rec.transitions += 1
+            rec.outcomes['%s:deep:%s' % (what, out[0])] += 1
+            if out[0] != 'ok':
+                rec.violation('C06:%s:%s for a valid message with deeply nested members' % (what, 'DeserializationError' if out[0] == 'deser' else type(out[1]).__name__ + ' escaped from_json'),
+                              dict(case, kind=o), expected='message object', observed='%s: %s' % (type(out[1]).__name__, str(out[1])[:100]))
+    rec.nontrivial_n += 1
+
+
 RUN = dict(request=run_request, response=run_response, error=run_error, batchreq=run_batchreq,
-           batchresp=run_batchresp, history=run_history)
+           batchresp=run_batchresp, history=run_history, deep=run_deep)
 
 
 def run_case(case, rec):
